@@ -52,7 +52,15 @@ type recHandler struct {
 }
 
 func (h *recHandler) HandleConsensusMessage(m interfaces.ConsensusMessage) error {
-	h.run.onDeliver(h.term, int(m.View()), uint64(m.BlockHeight()))
+	// the message's identity travels in its block hash: type, view and sender repeat between messages
+	id := 0
+	switch x := m.(type) {
+	case *interfaces.PrepareMessage:
+		fmt.Sscanf(string(x.Content().SignedHeader().BlockHash()), "m%d", &id)
+	case *interfaces.CommitMessage:
+		fmt.Sscanf(string(x.Content().SignedHeader().BlockHash()), "m%d", &id)
+	}
+	h.run.onDeliver(h.term, id, uint64(m.BlockHeight()))
 	return nil
 }
 
@@ -198,7 +206,16 @@ func runFilterOps(ops []fop) *frun {
 		} else if o.Kind == 2 {
 			f = c17Other
 		}
-		raw := f.CreatePrepareMessage(primitives.BlockHeight(o.H), primitives.View(m.id), []byte("x")).ToConsensusRawMessage()
+		// few distinct (type, view) pairs per sender: a second PREPARE or COMMIT of one member for the same view (another
+		// block, or a retransmission) is a message like any other
+		var raw *interfaces.ConsensusRawMessage
+		hash := []byte(fmt.Sprintf("m%d", m.id))
+		view := primitives.View((m.id / 2) % 2)
+		if m.id%2 == 0 {
+			raw = f.CreatePrepareMessage(primitives.BlockHeight(o.H), view, hash).ToConsensusRawMessage()
+		} else {
+			raw = f.CreateCommitMessage(primitives.BlockHeight(o.H), view, hash).ToConsensusRawMessage()
+		}
 		r.inRecv = m.id
 		r.filt.HandleConsensusRawMessage(raw)
 		r.inRecv = 0
